@@ -15,10 +15,19 @@ Proof. destruct c; reflexivity. Qed.
 Lemma fold_name : forall l p, p_name (fold_left apply_clause l p) = p_name p.
 Proof. induction l as [|c l IH]; intros p; [reflexivity|]. cbn [fold_left]. now rewrite IH, apply_name. Qed.
 
-Lemma clauses_head cl p rest : clauses_ok p cl -> cl <> [] -> is_ws (peek (clauses_text cl ++ rest)) = true.
+(* what hands over from the name to the clause parser: a blank, or - without any blank - '(' , '[' or '<' *)
+Definition ctlhead (c : ascii) : bool := is_ws c || eqc c 40 || eqc c 91 || eqc c 60.
+Lemma clauses_head cl p rest : clauses_ok p cl -> cl <> [] -> ctlhead (peek (clauses_text cl ++ rest)) = true.
 Proof.
-  intros W NE. destruct cl as [|[w c] cl]; [congruence|]. inversion W as [|? ? ? ? Hw Hne _ _]; subst.
-  unfold clauses_text. cbn [map List.concat fst snd]. destruct w as [|x w]; [congruence|]. inversion Hw; subst. cbn. assumption.
+  intros W NE. destruct cl as [|[w c] cl]; [congruence|]. inversion W as [|? ? ? ? Hw _ _]; subst.
+  unfold clauses_text. cbn [map List.concat fst snd]. destruct w as [|x w].
+  - destruct c; reflexivity.
+  - inversion Hw; subst. cbn [app peek]. unfold ctlhead. now replace (is_ws x) with true.
+Qed.
+Lemma ctlhead_facts c : ctlhead c = true -> eqc c 58 = false /\ multiarch_stop c = true.
+Proof.
+  pose proof (by_enum (fun c => negb (ctlhead c) || (negb (eqc c 58) && multiarch_stop c)) eq_refl c) as F. cbv beta in F.
+  intros H. rewrite H in F. cbn in F. apply andb_true_iff in F as [F1 F2]. apply negb_true_iff in F1. auto.
 Qed.
 
 Theorem possi_any_order name q cl rel rest rest' :
@@ -32,24 +41,22 @@ Proof.
   (* the end of the alternative *)
   assert (Hend : forall f p, p_name p <> [] -> possi_loop (S f) p rel rest' = Ok (rel ++ [p], rest')).
   { intros f p Hq. cbn [possi_loop]. pose proof (tail_ok_stop rest rest' T) as St.
-    pose proof (by_enum (fun c => negb (stop3 c) || (negb (eqc c 58) && negb (is_ws c) && negb (eqc c 40))) eq_refl (peek rest')) as F.
-    cbv beta in F. rewrite St in F. cbn in F. apply andb_true_iff in F as [F F3]. apply andb_true_iff in F as [F1 F2].
-    apply negb_true_iff in F1, F2, F3. rewrite F1, F2, F3. cbn [orb]. unfold stop3 in St. rewrite St.
+    pose proof (by_enum (fun c => negb (stop3 c) || (negb (eqc c 58) && negb (ctlhead c))) eq_refl (peek rest')) as F.
+    cbv beta in F. rewrite St in F. cbn in F. apply andb_true_iff in F as [F1 F2].
+    apply negb_true_iff in F1, F2. rewrite F1. fold (ctlhead (peek rest')). rewrite F2. unfold stop3 in St. rewrite St.
     destruct (p_name p); [congruence|reflexivity]. }
   assert (Rn : p_name (result name q cl) <> []) by (unfold result; rewrite fold_name; exact Hne).
   (* after name and qualifier *)
   destruct (controllers_any_order cl (base name q) rest rest' W T) as (f1&H1).
   assert (Fin : evOk (fun f => possi_loop f (base name q) rel (clauses_text cl ++ rest)) (rel ++ [result name q cl], rest')).
-  { assert (Via : is_ws (peek (clauses_text cl ++ rest)) = true ->
+  { assert (Via : ctlhead (peek (clauses_text cl ++ rest)) = true ->
             forall f, (S (S f1) <= f)%nat -> possi_loop f (base name q) rel (clauses_text cl ++ rest) = Ok (rel ++ [result name q cl], rest')).
     { intros Hw [|[|f]] Hf; try lia. cbn [possi_loop].
-      assert (C58 : eqc (peek (clauses_text cl ++ rest)) 58 = false).
-      { pose proof (by_enum (fun c => negb (is_ws c) || negb (eqc c 58)) eq_refl (peek (clauses_text cl ++ rest))) as F.
-        cbv beta in F. rewrite Hw in F. cbn in F. now apply negb_true_iff in F. }
-      rewrite C58, Hw. cbn [orb]. rewrite (H1 (S f) ltac:(lia)). apply Hend. exact Rn. }
+      destruct (ctlhead_facts _ Hw) as [C58 _].
+      rewrite C58. fold (ctlhead (peek (clauses_text cl ++ rest))). rewrite Hw. rewrite (H1 (S f) ltac:(lia)). apply Hend. exact Rn. }
     destruct cl as [|wc cl'].
     - cbn [clauses_text map List.concat app] in *. destruct (tail_ok_head rest rest' T) as [[Hw Er]|[Hs Er]].
-      + exists (S (S f1)). apply Via. exact Hw.
+      + exists (S (S f1)). apply Via. unfold ctlhead. now rewrite Hw.
       + subst rest'. exists 1%nat. intros [|f] Hf; [lia|]. apply Hend. exact Hne.
     - exists (S (S f1)). apply Via. apply (clauses_head _ _ _ W). discriminate. }
   destruct Fin as (f2&H2).
@@ -71,7 +78,7 @@ Proof.
       - cbn [clauses_text map List.concat app]. destruct (tail_ok_head rest rest' T) as [[Hw _]|[Hst _]].
         + unfold multiarch_stop. rewrite Hw. now rewrite !orb_true_r.
         + unfold multiarch_stop, stop3 in *. apply orb_true_iff in Hst as [Hst|Hst]; [apply orb_true_iff in Hst as [Hst|Hst]|]; rewrite Hst; cbn; now rewrite ?orb_true_r.
-      - pose proof (clauses_head _ _ rest W ltac:(discriminate)) as Hw. unfold multiarch_stop. rewrite Hw. now rewrite !orb_true_r. }
+      - pose proof (clauses_head _ _ rest W ltac:(discriminate)) as Hw. now destruct (ctlhead_facts _ Hw). }
     rewrite (multiarch_word (arch_string a) [] _ Hm Hstop). cbn [app]. rewrite (arch_named_ok _ _ Hok), Hrt.
     replace (set_arch (with_name fresh (c0 :: n0)) a) with (base (c0 :: n0) (Some a)) by reflexivity.
     apply H2. lia.
